@@ -24,6 +24,8 @@ def run(tier):
     for cfgname in cfgs:
         prog = Program.load(which=('SRC',), cfg=cfgname)
         eff = PathEffects(prog)
+        from ..rules import kernels as _kc
+        _kc.paired_cursor_rule(chk, 'C14.cursor', prog, ['sp_%strsv' % q for q in 'sdcz'], cfgname, floor=4)
         chk.clause('C14.trsv', 'R3 dispatch table of sp_?trsv (D1, D3)')
         chk.clause('C14.gemv', 'R3 lengths / short-cuts / spellings of sp_?gemv (D1, D3)')
         chk.clause('C14.D2', 'R10 only the output operand is written')
